@@ -48,7 +48,7 @@ theorem onReply_has (cfg : CCfg) (hrep : cfg.replay = false) (c : Cons) (r : Rep
     (hc : c.consumed = [(r.pid, l)]) (h : r.msgs ≠ []) (hcur : ∀ m ∈ r.msgs, m.off ≤ r.cur) :
     c.onReply cfg r =
       if r.msgs.filter (fun m => m.off > l) = [] then
-        if cfg.autoCommitEnabled && !cfg.polling && (c.stored.get? r.pid).getD 0 < l then
+        if cfg.autoCommitEnabled && !cfg.polling && ((c.stored.get? r.pid).getD 0 < l || c.strat == .next) then
           ({ c with stored := c.stored.set r.pid l }, { r with msgs := [] }, some (r.pid, l))
         else (c, { r with msgs := [] }, none)
       else
